@@ -198,6 +198,14 @@ def repMon (tr : List Ev) : RepMon := tr.foldl repStep {}
 
 /-! #### kept alive -/
 
+/-- **the latency margin of the property**, in seconds: the property's "for as long as the publisher accepts
+    renewals" is judged while every window of `n` consecutive reply latencies stays below this margin and every
+    granted timeout is at least this margin (the quantifier's timeouts start at 61 s).  It is a constant of the
+    property, NOT read from the code's `RESUBSCRIBE_TOLERANCE`: a library that renews later than 60 s before the
+    expiry is judged against the same 60 s. -/
+def marginSecs : Nat := 60
+
+
 /-- the publisher's bookkeeping after request `r` -/
 def pubUpdate (subTimeout : Nat) (ex : PyDict Sid (Option Time)) (r : Req) : PyDict Sid (Option Time) :=
   if !r.reac.accepts then ex else
